@@ -203,6 +203,12 @@ class TransformerRun(object):
     def stmt(self, st):
         if isinstance(st, ast.Expr) and isinstance(st.value, ast.Constant):
             return
+        # memo idiom (`if k in self.C: return self.C[k]` ... `self.C[k] = v`): the computation is interpreted as on a miss; whether the memo
+        # may answer at all is R-CACHE's question (sa/rules/memo.py)
+        from sa.rules import memo as _memo
+        mm = _memo.memo_of(self.f.node)
+        if mm is not None and (st is mm[2] or any(st is x for x in mm[3])):
+            return
         if isinstance(st, ast.Assign) and len(st.targets) == 1:
             t = st.targets[0]
             if isinstance(t, ast.Name):
